@@ -343,7 +343,9 @@ def rule_line_positions(chk, prog, tier):
         bad = ['%s at %s:%s:%s' % (t[1], t[2], t[3], t[4]) for t in strs if t[2] != 'in.c' or t[3] != line or not t[4] or t[4] < 1]
         r.instance(bool(strs) and not bad, key, 'pp.c:expandfunc', 'the stringized token(s) must be located on line %d of in.c; got %s' % (line, bad or strs))
     # diagnostics the scanner itself raises
-    for src, msg, want in (('int a;\nchar *s = "abc\n";\n', 'newline in string literal', (2, 14)), ("int c = 'a\n';\n", 'newline in character constant', (1, 11)),
+    # `want`: the position of the offending newline; the start of the literal it is found in is accepted too (both are positions inside the construct)
+    START = {'int a;\nchar *s = "abc\n";\n': (2, 11), "int c = 'a\n';\n": (1, 9), 'int a;\n\nint *p = L"ab\n': (3, 10)}
+    for src, msg, want in (('int a;\nchar *s = "abc\n";\n', 'newline in string literal', (2, 14)), ("int c = 'a\n';\n", 'newline in character constant', (1, 11)), ('int a;\n\nint *p = L"ab\n', 'newline in string literal', (3, 14)),
                            ('int a;\n\n  @', None, None), ('/* x\n\n', 'EOF in comment', None)):
         run = pp_concrete(prog, src)
         key = 'scanner-diagnostic:%r' % src
@@ -352,7 +354,7 @@ def rule_line_positions(chk, prog, tier):
         if run.outcome != 'terminal:error' or not isinstance(run.detail, tuple):
             r.instance(False, key, 'scan.c', 'expected the diagnostic "%s", got %s %s' % (msg, run.outcome, run.detail)); continue
         fmt, where = run.detail
-        ok = msg in fmt and where == want
+        ok = msg in fmt and where in (want, START.get(src))
         if msg in fmt and where is not None and where != want and where == (want[0] + 1, 0):
             r.violation('scanner-diagnostic-class: a diagnostic raised at a newline character is located on the following line, column 0', 'scan.c:nextchar',
                         '"%s" for %r is reported at line %d column %d; the offending newline ends line %d (column %d)' % (msg, src, where[0], where[1], want[0], want[1]))
